@@ -123,6 +123,8 @@ func main() {
 		}
 		runConfig(c, fs)
 	}
+	eskip(fs)
+	res.Info["E-skip"] = "olla engine, 3 endpoints: a five-request prefix opens A's breaker, A is readmitted, then every fault on B with C working - the request's history contains a skipped candidate"
 	res.Info["grid"] = map[string]any{"faults": names(fs), "engines": engines, "profiles": profiles, "balancers": balancers,
 		"response_types": []string{"json+content-length", "sse+chunked"}, "endpoints": "1..3", "configurations": len(cfgs)}
 	res.Info["rule"] = "one evaluation = one fault assignment to the k endpoints of one configuration, one client request; non-trivial = at least one injected fault was actually hit by olla (a faulty backend was contacted or refused) ; distinct = distinct (configuration class, assignment, outcome) fingerprints"
